@@ -227,6 +227,21 @@ def start_breaks(text):
     return n
 
 
+def blank_askers():
+    """iarf / bool options documented as asking for a BLANK line ('Add or remove blank line before if'): two line breaks"""
+    import re
+    t = open(os.path.join(corpus.REPO, "src", "options.h"), errors="replace").read()
+    res = set()
+    for m in re.finditer(r"((?://[^\n]*\n)+)extern (?:Bounded)?Option<([^>]*)>\n(\w+);", t):
+        doc, typ, name = m.group(1).lower(), m.group(2), m.group(3)
+        if name.startswith("nl_") and ("blank line" in doc or "empty line" in doc) and (typ.startswith("iarf") or typ == "bool"):
+            res.add(name)
+    return res
+
+
+ASKERS = blank_askers()
+
+
 def _job(a):
     unc, tmp, i, (jid, src, cfg, cfg_text, lang), maxreq = a
     if cfg is None:
@@ -247,6 +262,9 @@ def _job(a):
         ev["rc"] = 98
         return ev, (jid, src, cfg, cfg_text, lang)
     ev["maxreq"] = maxreq if maxreq is not None else 99
+    # the statement's proviso: an option that asks for a blank line asks for two line breaks
+    if any(getopt(cfg_text, n_, "ignore").lower() in ("add", "force", "true", "t", "1", "y", "yes") for n_ in ASKERS):
+        ev["maxreq"] = max(ev["maxreq"], 2)
     ev["so"] = IARF.get(getopt(cfg_text, "nl_start_of_file", "ignore"), "ignore")
     ev["eo"] = IARF.get(getopt(cfg_text, "nl_end_of_file", "ignore"), "ignore")
     tv = ("true", "t", "1", "y", "yes")
@@ -283,7 +301,8 @@ def run(ctx):
             src = os.path.join(tmp, "p%d%s" % (len(progs), EXT[lang]))
             obs.write(src, inject(ctx.rng, t).encode())
             progs.append((src, lang))
-    ncfg = 180 if quick else 1200
+    ncfg = 180 if quick else 3000
+    mods = [o for o in cfggen.registry(unc) if o["name"].startswith("mod_") and o["kind"] in ("iarf", "bool") and not o["name"].startswith("mod_sort")]
     for c in range(ncfg):
         nlmax = ctx.rng.choice([1, 2, 2, 3, 4])
         l = ["nl_max=%d" % nlmax]
@@ -307,6 +326,10 @@ def run(ctx):
             # other newline options (iarf / bool) at random
             ws = [o for o in hazard.nl_options(unc) if o["kind"] in ("iarf", "bool")]
             for o in ctx.rng.sample(ws, 10):
+                l.append("%s=%s" % (o["name"], cfggen.value(ctx.rng, o)))
+        if ctx.rng.random() < 0.3:
+            # code-modifying options remove / add tokens next to newline chunks (a removed '}' once left two chunks that each obeyed the cap)
+            for o in ctx.rng.sample(mods, 3):
                 l.append("%s=%s" % (o["name"], cfggen.value(ctx.rng, o)))
         cfgt = "\n".join(l) + "\n"
         for (src, lang) in ctx.rng.sample(progs, 5 if quick else 8):
